@@ -102,6 +102,65 @@ func genMapProg(id int, seed int64, nsteps int) *Prog {
 		}}
 }
 
+// zeroValueProgs: a missing key gives the zero value OF THE ELEMENT TYPE (also through a nil map), for every key
+// type × element type; the uses are sensitive to the element's static type.
+func zeroValueProgs(base int) []*Prog {
+	var progs []*Prog
+	id := base
+	for _, kt := range []string{"int", "float64", "byte", "bool", "string"} {
+		for _, vt := range []string{"int", "string", "float64", "byte", "bool", "[]int", "int8"} {
+			var b strings.Builder
+			line := func(f string, a ...interface{}) { b.WriteString("\t" + fmt.Sprintf(f, a...) + "\n") }
+			line("m := map[%s]%s{}", kt, vt)
+			line("var nm map[%s]%s", kt, vt)
+			switch vt {
+			case "[]int":
+				line("v := m[k]")
+				line("w, ok := m[k]")
+				line("fmt.Println(len(v), v == nil, len(w), ok, len(nm[k]), len(m), len(nm))")
+				line("m[k] = append(m[k], 1)")
+				line("fmt.Println(len(m[k]), m[k][0], len(m))")
+			case "string":
+				line("v := m[k]")
+				line("w, ok := m[k]")
+				line("fmt.Println(v, len(v), w == \"\", ok, nm[k] == \"\", len(m))")
+				line("m[k] += \"x\"")
+				line("m[k] += nm[k]")
+				line("fmt.Println(m[k], len(m[k]), len(m))")
+			case "bool":
+				line("v := m[k]")
+				line("w, ok := m[k]")
+				line("fmt.Println(v, w, ok, nm[k], !m[k], len(m))")
+				line("m[k] = !m[k]")
+				line("fmt.Println(m[k], len(m))")
+			default:
+				line("v := m[k]")
+				line("w, ok := m[k]")
+				line("fmt.Println(v, w, ok, nm[k], len(m))")
+				line("m[k] += 3")
+				line("m[k] /= 2")
+				line("m[k] -= 2")
+				line("x := m[k] + nm[k]")
+				line("fmt.Println(m[k], x, x*x*x*x*x, len(m))")
+			}
+			name := fmt.Sprintf("f%d", id)
+			src := fmt.Sprintf("package main\n\nimport \"fmt\"\n\nfunc %s(k %s) int {\n%s\treturn len(m)\n}\n", name, kt, b.String())
+			p := &Prog{ID: fmt.Sprintf("zero:%s:%s", kt, vt), Src: src, Entry: name, Params: []Param{{"k", kt}}, Results: []string{"int"}, Family: fmt.Sprintf("C10/E/zero/%s/%s", kt, vt)}
+			if kt == "float64" {
+				p.Assume = func(ex *gosx.Exec, in map[string]*gosx.Term) {
+					ex.Assume(ex.TT().Not(ex.TT().FPred(gosx.OpFIsNaN, in["k"])))
+				}
+			}
+			if kt == "string" {
+				p.StrLen = map[string]int{"k": 1}
+			}
+			progs = append(progs, p)
+			id++
+		}
+	}
+	return progs
+}
+
 func checkC10(tier string, seed int64) int {
 	c := newCtx("C10", tier, seed, "model_checking", nil)
 	defer c.Close()
@@ -138,6 +197,7 @@ func checkC10(tier string, seed int64) int {
 	for i := 0; i < nprogs; i++ {
 		progs = append(progs, genMapProg(i, seed*100000+int64(i), 2+i%(psteps-1)))
 	}
+	progs = append(progs, zeroValueProgs(nprogs)...)
 	eagg, st := NewAgg(), &eqStats{}
 	c.runEquiv(progs, "z3", eagg, st)
 	eagg.Into(c, "scripts_")
@@ -146,6 +206,7 @@ func checkC10(tier string, seed int64) int {
 	c.Assumption("host-API histories: operation kind and key symbolic per step (int32/float64 keys unconstrained except NaN; bool; strings from {a,b,c}); the harness keeps a Go map as the model")
 	c.Assumption(fmt.Sprintf("range-delete-subset harness: %d keys (int32- and string-keyed), an arbitrary subset (symbolic mask, all 2^%d) deleted after 0..3 visits, optional insert of a fresh key", subsetN, subsetN))
 	c.Assumption("maps.Keys (compaction path) returns every permutation for ≤ 4 keys, insertion order above")
+	c.Assumption("zero-value programs: 5 key types × 7 element types (int, string, float64, byte, bool, []int, int8): missing-key reads (plain, comma-ok, through a nil map) and compound assignment on a missing key, used so that the element's static type shows")
 	c.Assumption("script programs compare iteration through order-independent aggregates; the only mutation during range in scripts is deleting the current key; other mutation-during-range behaviour is checked by the host-API harness against the spec's guarantees")
 	return c.Finish(false)
 }
